@@ -53,3 +53,41 @@ fn u_utf8_deferred_verdict_n6() {
     kani::cover!(!bad && n == N);
     core::mem::forget(v);
 }
+
+/// C01/C12/C13 U-read-faststr: whatever a reader over `&'de FastStr` hands out for `'de`
+/// (`Read::slice`, from which the borrowed keys of `to_object_iter(&FastStr)` and the borrowed
+/// `&'de str` of the typed deserializer are cut) is still readable, with the caller's bytes in
+/// it, after the reader itself is gone - for the inlined (two symbolic bytes), the
+/// `Arc<String>` and the static representation of FastStr (Kani's pointer checks flag a read
+/// from a freed box).
+fn read_faststr_body(f: faststr::FastStr) {
+    let handed_out: &[u8] = {
+        let r = Read::from(&f);
+        r.slice()
+    };
+    assert_eq!(handed_out.len(), f.len());
+    let i: usize = kani::any();
+    kani::assume(i < handed_out.len());
+    let b = handed_out[i];
+    assert_eq!(b, f.as_bytes()[i]);
+    kani::cover!(i == 1);
+    core::mem::forget(f);
+}
+
+#[kani::proof]
+#[kani::unwind(6)]
+fn u_read_from_faststr_outlives_reader() {
+    let raw: [u8; 2] = kani::any();
+    kani::assume(raw[0] < 0x80 && raw[1] < 0x80);
+    let s = unsafe { core::str::from_utf8_unchecked(&raw[..]) };
+    read_faststr_body(faststr::FastStr::new(s));
+}
+
+#[kani::proof]
+#[kani::unwind(6)]
+fn u_read_from_faststr_shared_outlives_reader() {
+    let arc: bool = kani::any();
+    // 28 bytes: longer than the 24 an inlined FastStr holds, so this one really is an Arc<String>
+    let f = if arc { faststr::FastStr::from_string(String::from("[1,2,3,4,5,6,7,8,9,10,11,12]")) } else { faststr::FastStr::from_static_str("[1]") };
+    read_faststr_body(f);
+}
